@@ -113,6 +113,14 @@ def directed():
                     if rxclass:
                         c["rxclass"] = rxclass
                     out.append(c)
+    # the receiver (and the sender) have a signer id of their own while the memo is UNSIGNED: the delivered signer id
+    # must be None whatever the arrival order
+    for code in ("bAAA", "bAAE"):
+        for curt in (False, True):
+            for sched in ("reverse", "inorder", "shuffle+dups"):
+                k += 1
+                out.append({"authic": False, "schedule": sched, "svc": "end" if sched != "inorder" else "all", "seed": k, "rx": {"vid": k % 3},
+                            "memos": [_memo("unsigned memo, receiver has a vid %d wörld € " % k, code, curt, _min_size(code, curt) + 7, k % 3, 1, k)]})
     # two memos interleaved from different sources, one gram withheld from the second
     out.append({"authic": False, "memos": [_memo("first memo first memo", "bAAA", False, 38, None, 1, 50),
                                            _memo("second memo second memo", "bAAE", True, 40, None, 2, 51)],
@@ -186,6 +194,8 @@ def generate(rng, tier):
         if rng.random() < 0.6:      # the receiver's own transmit settings, independent of the senders'
             c["rx"] = {"size": rng.choice([1, 33, 38, 40, 64, 125, 170, 200]), "curt": rng.random() < 0.5,
                        "code": rng.choice(mc.ZERO_CODES)}
+            if rng.random() < 0.7:
+                c["rx"]["vid"] = rng.randrange(3)      # the receiver has a signer id of its own
             c["rxsets"] = [[rng.random(), rng.choice([["size", rng.choice([1, 25, 33, 60, 124, 165])], ["curt", rng.random() < 0.5],
                                                      ["code", rng.choice(mc.ZERO_CODES)]])] for _ in range(rng.randint(0, 3))]
         out.append(c)
@@ -294,6 +304,8 @@ def _tx_generate(rng, n, base):
         entry = rng.choice(["svc", "once"])
         ops += [[entry]] * (6 if entry == "svc" else 80)
         out.append(_tx_case(cfg, memos, policy, ops, authic=(sg is not None and rng.random() < 0.8), budget=600))
+        if rng.random() < 0.5:
+            out[-1]["rxvid"] = True
     return out
 
 
@@ -381,7 +393,7 @@ def _run_tx(case):
     # receivers, one per destination
     rxs = {}
     for dst in sorted({str(m["dst"]) for m in case["memos"]}):
-        rx = mc.new_receiver(case["authic"])
+        rx = mc.new_receiver(case["authic"], **({"vid": int(dst) % 3} if case.get("rxvid") else {}))
         ops = []
         for d in state["delivered"].get(dst, []):
             ops += [["dgram", d.hex(), 1], ["all"]]
